@@ -27,7 +27,7 @@ from vgi_rpc.rpc import (
     _write_error_batch,
 )
 from vgi_rpc.rpc._common import CookieSpec, _current_response_cookies
-from vgi_rpc.utils import new_ipc_stream
+from vgi_rpc.utils import IPCError, new_ipc_stream
 
 from .._common import (
     _ARROW_CONTENT_TYPE,
@@ -231,7 +231,7 @@ class _UploadUrlResource:
                 ipc_method, kwargs = _read_request(_get_request_stream(req), self._app._server.ipc_validation)
                 if ipc_method != _UPLOAD_URL_METHOD:
                     raise TypeError(f"Method mismatch: expected '{_UPLOAD_URL_METHOD}', got '{ipc_method}'")
-            except (pa.ArrowInvalid, TypeError, StopIteration, RpcError, VersionError) as exc:
+            except (pa.ArrowInvalid, IPCError, TypeError, StopIteration, RpcError, VersionError) as exc:
                 raise _RpcHttpError(exc, status_code=HTTPStatus.BAD_REQUEST) from exc
             except Exception as exc:
                 # Same reasoning as the unary/stream guards: an unclassified
